@@ -585,7 +585,7 @@ def inline_once(facts, body, select=None, max_blocks=120):
 
 def inlined(facts, body, depth=1, select=None, max_blocks=120):
     """`body` with calls to crate functions inlined `depth` levels deep."""
-    key = (id(facts), body.name, depth, None if select is None else id(select), max_blocks)
+    key = (id(facts), body.name, depth, select, max_blocks)      # the selector itself: ids of dead lambdas are reused
     if key in _CACHE:
         return _CACHE[key]
     cur = body
